@@ -310,7 +310,7 @@ namespace
                         std::vector<Stmt> st = base;
                         for (std::size_t j = 0; j < st.size(); ++j) st[j].id = static_cast<int>(j) + 1;
                         Stmt twin = st[i];
-                        if (mode == 'K') { if (twin.kind != F1 && twin.kind != F2 && twin.kind != NEST) continue; twin.k = (twin.kind == NEST) ? (twin.k + 1) % static_cast<int>(bodies().size()) : twin.k + 1; twin.id = 50; }
+                        if (mode == 'K') { if (twin.kind != F1 && twin.kind != F2 && twin.kind != NEST) continue; twin.k = (twin.kind == NEST) ? (twin.k + 1) % static_cast<int>(bodies().size()) : twin.k + 1; }
                         if (mode == 'P')
                         {
                             // same definition, inputs and scalars; one input is wired through passive(): a different node
@@ -324,7 +324,7 @@ namespace
                             const int slot = (twin.kind == ITE) ? 1 : 0;
                             for (int c = 0; c < static_cast<int>(i); ++c) if (!is_bool_kind(st[static_cast<std::size_t>(c)].kind) && c != twin.in[slot]) { repl = c; break; }
                             if (repl < 0) continue;
-                            twin.in[slot] = repl; twin.id = 51;
+                            twin.in[slot] = repl;  // same definition and scalars (incl. the logging id): only the input differs
                         }
                         // insert twin right after i; shift later references
                         st.insert(st.begin() + static_cast<long>(i) + 1, twin);
